@@ -375,7 +375,7 @@ def run(ctx):
 
     # notes (unarmed): default-argument alias writes outside the C12 roots
     for f, n, k, kind in writes:
-        if f not in on_path and f not in config_api and G[k]['kind'] == 'instance':
+        if k in G and f not in on_path and f not in config_api and G[k]['kind'] == 'instance':
             ctx.note('unarmed: %s writes %s (%s) -- outside the diff/merge/request roots: %s' % (
                 f, gname(k), kind, repo.norm(repo.stmt_of(n))[:80]))
 
